@@ -7,6 +7,8 @@ import Driver.Conv
 import Driver.View
 import Driver.Arr
 import Driver.C16
+import Driver.C18
+import Driver.C17
 import MdspanVerif.Model.ValidB
 open Mdspan Drv
 
@@ -22,6 +24,8 @@ def step (line : String) : String :=
   | "view" :: kind :: ty :: rest => viewLine kind ty rest
   | "arr" :: kind :: _ :: rest => arrLine kind rest
   | "c16" :: fam :: rest => c16Line fam rest
+  | "c18" :: lay :: ty :: rest => c18Line lay ty rest
+  | "c17" :: fam :: rest => c17Line fam rest
   | "conv" :: kind :: _ :: rest => convLine kind rest
   | "mapeq" :: kind :: _ :: rest => mapeqLine kind rest
   | "dot" :: rest =>
